@@ -63,10 +63,34 @@ type C10Outer struct {
 	NoTag int
 }
 
-func (o *C10Outer) Echo(x *C10Outer) *C10Outer     { return x }
-func (o *C10Outer) EchoIn(x *C10Inner) *C10Inner   { return x }
-func (o *C10Outer) Describe() string               { return c10Describe(o) }
-func (o *C10Outer) DescribeArg(x *C10Outer) string { return c10Describe(x) }
+// the same Go field name (ID, Note) at several places of an embedding tree, under different tags
+type C10AuditA struct {
+	ID   int    `json:"audit_id"`
+	Note string `json:"audit_note"`
+}
+
+type C10AuditB struct {
+	ID   int    `json:"b_id"`
+	Note string `json:"b_note"`
+}
+
+type C10Dup struct {
+	C10AuditA
+	C10AuditB
+	ID    int    `json:"id"`
+	Label string `json:"label"`
+}
+
+func (d *C10Dup) Echo(x *C10Dup) *C10Dup { return x }
+func (d *C10Dup) Describe() string {
+	return fmt.Sprintf("audit_id=%d audit_note=%q b_id=%d b_note=%q id=%d label=%q", d.C10AuditA.ID, d.C10AuditA.Note, d.C10AuditB.ID, d.C10AuditB.Note, d.ID, d.Label)
+}
+
+func (o *C10Outer) DescribeSecond(first *C10Outer, x *C10Outer) string { return c10Describe(x) }
+func (o *C10Outer) Echo(x *C10Outer) *C10Outer                         { return x }
+func (o *C10Outer) EchoIn(x *C10Inner) *C10Inner                       { return x }
+func (o *C10Outer) Describe() string                                   { return c10Describe(o) }
+func (o *C10Outer) DescribeArg(x *C10Outer) string                     { return c10Describe(x) }
 
 var c10once sync.Once
 
@@ -78,6 +102,9 @@ func c10Register() {
 		zygo.GoStructRegistry.RegisterUserdef(&zygo.RegisteredType{GenDefMap: true, Factory: func(env *zygo.Zlisp, h *zygo.SexpHash) (interface{}, error) {
 			return &C10Inner{}, nil
 		}}, true, "c10inner")
+		zygo.GoStructRegistry.RegisterUserdef(&zygo.RegisteredType{GenDefMap: true, Factory: func(env *zygo.Zlisp, h *zygo.SexpHash) (interface{}, error) {
+			return &C10Dup{}, nil
+		}}, true, "c10dup")
 	})
 }
 
@@ -151,6 +178,7 @@ type c10val struct {
 	defs    string // (def shN (c10inner …)) for shared records
 	literal string // the record literal
 	fields  []string
+	parts   map[string]string // field -> literal text
 	shared  bool
 	hasTime bool
 }
@@ -159,9 +187,11 @@ func c10Gen(r *core.Rng) *c10val {
 	v := &c10val{g: &C10Outer{}}
 	g := v.g
 	var parts []string
+	v.parts = map[string]string{}
 	add := func(field, text string) {
 		parts = append(parts, field+":"+text)
 		v.fields = append(v.fields, field)
+		v.parts[field] = text
 	}
 	words := []string{"", "a", "hello world", "q\"uote", "ünï", "tab\there", "x"}
 	qs := func(s string) string { return strconv.Quote(s) }
@@ -337,7 +367,7 @@ func init() {
 		ID:    "C10",
 		Level: "exploration",
 		Rule: "random values of harness-registered Go struct types covering every supported field kind (int, int64, float64, string, bool, []int, []string, []byte, map[string]string, map[string]float64, *Inner, nested struct value, interface-typed field, []Iface and []*Inner holding other registered structs, embedded structs three levels deep with tagged fields, untagged field) with shared records (the same record in two fields / twice in a slice): the record literal denoting the value is evaluated, then " +
-			"(1) SexpToGoStructs and the implicit conversions when the record is the receiver or an argument of a Go method must produce a Go value equal to the generated one (canonical rendering with pointer identity); (2) (_method o Echo: r) must hand back a record whose every field equals r's (absent fields zero/nil/empty), also with nil pointers, nil interfaces and empty slices; (3) a record with one undeclared field or one value of the wrong kind (string into int, fractional float into int, int into pointer, array of strings into []int, string into bool, hash into string) must make the conversion report an error to the script, never succeed. non-trivial = distinct value with a nested/shared record or a slice/map field",
+			"(1) SexpToGoStructs and the implicit conversions when the record is the receiver or an argument of a Go method must produce a Go value equal to the generated one (canonical rendering with pointer identity); (2) (_method o Echo: r) must hand back a record whose every field equals r's (absent fields zero/nil/empty), also with nil pointers, nil interfaces and empty slices; (3) a record with one undeclared field or one value of the wrong kind (string into int, fractional float into int, int into pointer, array of strings into []int, string into bool, hash into string) must make the conversion report an error to the script, never succeed (an undeclared field also when its value is nil or []); (4) a struct whose Go field names repeat across three places of its embedding tree under different tags converts in both directions field by field; (5) convert / change every field with hset (fields no longer wanted set to nil) / convert again: a conversion into a fresh struct, the first- and second-argument routes and an explicit (togo r) followed by a call must all see the record as it is now (the bare receiver route keeps the Go object attached by the first conversion, by design, and is not judged after changes). non-trivial = distinct value with a nested/shared record or a slice/map field",
 		Assumptions: []string{
 			"int into a float64 field is an accepted conversion (value preserved)",
 			"time.Time members come back from Go as nil (pinned by the repository's own Test018), so a time field is only required to arrive in Go (non-zero) and is expected to be nil after the trip back",
@@ -345,7 +375,7 @@ func init() {
 		NCases:   func(c *core.Ctx) int { return thorN(c, 2000, 50000) },
 		Chunk:    100,
 		Sanitize: true,
-		MustSee:  []string{"record_to_go", "receiver_conversions", "argument_conversions", "echo_round_trips", "shared_records", "negative_cases"},
+		MustSee:  []string{"record_to_go", "receiver_conversions", "argument_conversions", "echo_round_trips", "shared_records", "negative_cases", "repeated_field_names", "convert_change_convert"},
 		Run:      c10Run,
 	})
 }
@@ -356,6 +386,12 @@ func c10Run(c *core.Ctx, i int) *core.Result {
 	res := &core.Result{}
 	if i%5 == 4 {
 		return c10Negative(c, i, r, res)
+	}
+	if i%10 == 7 {
+		return c10DupCase(c, i, r, res)
+	}
+	if i%10 == 2 {
+		return c10Sequence(c, i, r, res)
 	}
 	v := c10Gen(r)
 	text := v.defs + "(def r " + v.literal + ")\n"
@@ -457,6 +493,147 @@ func c10Run(c *core.Ctx, i int) *core.Result {
 	return res
 }
 
+// c10DupCase: a struct in which one Go field name occurs at three places of the embedding tree
+// under different tags: record -> Go must fill each place, and the trip back must name each.
+func c10DupCase(c *core.Ctx, i int, r *core.Rng, res *core.Result) *core.Result {
+	g := &C10Dup{}
+	var parts []string
+	words := []string{"", "a", "two words", "ünï"}
+	if r.N(4) > 0 {
+		g.C10AuditA.ID = 1 + r.N(500)
+		parts = append(parts, fmt.Sprintf("audit_id:%d", g.C10AuditA.ID))
+	}
+	if r.N(3) > 0 {
+		g.C10AuditA.Note = words[r.N(4)]
+		parts = append(parts, fmt.Sprintf("audit_note:%q", g.C10AuditA.Note))
+	}
+	if r.N(4) > 0 {
+		g.C10AuditB.ID = 1000 + r.N(500)
+		parts = append(parts, fmt.Sprintf("b_id:%d", g.C10AuditB.ID))
+	}
+	if r.N(3) > 0 {
+		g.C10AuditB.Note = words[r.N(4)]
+		parts = append(parts, fmt.Sprintf("b_note:%q", g.C10AuditB.Note))
+	}
+	if r.N(4) > 0 {
+		g.ID = 5000 + r.N(500)
+		parts = append(parts, fmt.Sprintf("id:%d", g.ID))
+	}
+	if r.N(3) > 0 {
+		g.Label = words[r.N(4)]
+		parts = append(parts, fmt.Sprintf("label:%q", g.Label))
+	}
+	for k := len(parts) - 1; k > 0; k-- { // field order in the literal is free
+		j := r.N(k + 1)
+		parts[k], parts[j] = parts[j], parts[k]
+	}
+	text := "(def r (c10dup " + strings.Join(parts, " ") + "))\n"
+	res.Input, res.Hash, res.Nontrivial = text, core.HashOf(text), true
+	want := g.Describe()
+	for _, call := range []string{"(_method r Describe:)", "(_method (first (_method (c10dup) Echo: r)) Describe:)", "(begin (togo r) (_method r Describe:))"} {
+		s := NewSutRun(true)
+		o := s.Eval(text+call+"\n", 0)
+		res.Evals++
+		res.Ev("repeated_field_names", 1)
+		if o.Panic != "" {
+			res.Violate("escaped-panic:"+o.Site, o.Panic, text+call)
+			return res
+		}
+		if o.Err != nil {
+			res.Violate("repeated-field-name-conversion-fails", fmt.Sprintf("%s fails: %s %v", call, OutStr(o), o.Err), text+call)
+			return res
+		}
+		if got := c10FirstString(o.Val); got != want {
+			res.Violate("repeated-field-name-conversion-differs", fmt.Sprintf("%s gives\n  %s\nwant\n  %s", call, got, want), text+call)
+			return res
+		}
+	}
+	// the record that comes back must carry every field under its own tag
+	s := NewSutRun(true)
+	o := s.Eval(text+"(def e (first (_method (c10dup) Echo: r)))\n(list (hget e audit_id: 0) (hget e b_id: 0) (hget e id: 0) (hget e audit_note: \"\") (hget e b_note: \"\") (hget e label: \"\"))\n", 0)
+	res.Evals++
+	wantList := fmt.Sprintf("(%d %d %d %q %q %q)", g.C10AuditA.ID, g.C10AuditB.ID, g.ID, g.C10AuditA.Note, g.C10AuditB.Note, g.Label)
+	if o.Err != nil || o.Panic != "" {
+		res.Violate("echo-fails", "reading the echoed c10dup record fails: "+OutStr(o), text)
+	} else if got := o.Val.SexpString(nil); got != wantList {
+		res.Violate("echo-differs:repeated-field-names", fmt.Sprintf("the record returned by Echo holds %s, want %s", got, wantList), text)
+	}
+	return res
+}
+
+// c10Sequence: a record is converted, changed, and converted again by every route. Go must see
+// the record as it is now (every route agreeing with a conversion into a fresh struct and with
+// the value the changes denote), not a struct cached by an earlier conversion.
+func c10Sequence(c *core.Ctx, i int, r *core.Rng, res *core.Result) *core.Result {
+	v1 := c10Gen(r)
+	var v2 *c10val
+	for try := 0; ; try++ {
+		v2 = c10Gen(core.NewRng(c.Seed, "C10seq", i, try))
+		if v2.defs == "" && !v2.hasTime {
+			break
+		}
+	}
+	first := []string{"(togo r)", "(_method r Describe:)", "(_method (c10outer) DescribeArg: r)", "(_method (c10outer) Echo: r)", "(_method (c10outer p:r.p sh:r.sh ps:r.ps) Describe:)"}[r.N(5)]
+	if strings.Contains(first, "r.p") && (v1.parts["p"] == "" || v1.parts["sh"] == "" || v1.parts["ps"] == "") {
+		first = "(togo r)"
+	}
+	text := v1.defs + "(def r " + v1.literal + ")\n" + first + "\n"
+	// now make r denote v2: set every field v2 has, clear every other field v1 had
+	for _, f := range v2.fields {
+		text += fmt.Sprintf("(hset r %s: %s)\n", f, v2.parts[f])
+	}
+	for _, f := range v1.fields {
+		if _, keep := v2.parts[f]; !keep {
+			text += fmt.Sprintf("(hset r %s: nil)\n", f)
+		}
+	}
+	res.Input, res.Hash, res.Nontrivial = text, core.HashOf(text), true
+	want := c10Describe(v2.g)
+	s := NewSutRun(true)
+	o := s.Eval(text+"r\n", 0)
+	res.Evals++
+	res.Ev("convert_change_convert", 1)
+	if o.Panic != "" {
+		res.Violate("escaped-panic:"+o.Site, o.Panic, text)
+		return res
+	}
+	if o.Err != nil {
+		res.Verdict, res.Key, res.Detail = core.Inconclusive, "sequence-setup-fails", o.ErrLine()
+		return res
+	}
+	rec, ok := o.Val.(*zygo.SexpHash)
+	if !ok {
+		res.Verdict, res.Key = core.Inconclusive, "sequence-setup-fails"
+		return res
+	}
+	var fresh C10Outer
+	var err error
+	pan, _ := sut.Protect(func() { _, err = zygo.SexpToGoStructs(rec, &fresh, s.Env, nil, 0, &fresh) })
+	if pan != "" || err != nil {
+		res.Violate("record-to-go-fails", fmt.Sprintf("after %s and the field updates, SexpToGoStructs into a fresh struct fails: %v %s", first, err, core.Trunc(pan, 300)), text)
+		return res
+	}
+	if d := c10Describe(&fresh); d != want {
+		res.Violate("record-to-go-differs:"+c10DiffField(want, d), fmt.Sprintf("after the updates the record converts (fresh struct) to\n  %s\nwant\n  %s", d, want), text)
+		return res
+	}
+	// (the bare receiver route is not judged here: a record that has been converted keeps its attached Go object
+	// as receiver by design; an explicit (togo r) converts again)
+	for _, call := range []string{"(_method (c10outer) DescribeArg: r)", "(_method (c10outer) DescribeSecond: (c10outer) r)", "(begin (togo r) (_method r Describe:))", "(begin (togo r) (_method (c10outer) DescribeArg: r))"} {
+		o2 := s.Eval(call+"\n", 0)
+		res.Evals++
+		if o2.Err != nil || o2.Panic != "" {
+			res.Violate("method-call-conversion-fails", fmt.Sprintf("%s fails after %s and the updates: %s", call, first, OutStr(o2)), text+call)
+			return res
+		}
+		if got := c10FirstString(o2.Val); got != want {
+			res.Violate("stale-go-value:"+c10DiffField(want, got), fmt.Sprintf("after %s and the field updates, %s saw\n  %s\nwant (the record as it is now)\n  %s", first, call, got, want), text+call)
+			return res
+		}
+	}
+	return res
+}
+
 func c10FirstString(v zygo.Sexp) string {
 	if a, ok := v.(*zygo.SexpArray); ok && len(a.Val) > 0 {
 		v = a.Val[0]
@@ -484,7 +661,7 @@ func c10DiffField(a, b string) string {
 
 func c10Negative(c *core.Ctx, i int, r *core.Rng, res *core.Result) *core.Result {
 	bad := [][2]string{
-		{"undeclared-field", "nosuch:1"}, {"undeclared-field", "Baseid:3"}, {"undeclared-field", "I:3"},
+		{"undeclared-field", "nosuch:1"}, {"undeclared-field", "Baseid:3"}, {"undeclared-field", "I:3"}, {"undeclared-field-nil", "nosuch:nil"}, {"undeclared-field-nil", "bogus:nil"}, {"undeclared-field-empty", "nosuch:[]"},
 		{"string-into-int", `i:"str"`}, {"fraction-into-int", "i64:2.5"}, {"int-into-pointer", "p:5"},
 		{"strings-into-int-slice", `ints:["a" "b"]`}, {"string-into-bool", `b:"yes"`}, {"hash-into-string", "s:(hash a:1)"},
 		{"int-into-string", "s:5"}, {"string-into-float", `f:"x"`}, {"array-into-int", "i:[1]"}, {"int-into-map", "m:7"},
@@ -554,3 +731,6 @@ func c10SplitFields(s string) []string {
 	}
 	return out
 }
+
+// C10Register makes the harness types known to the registry (used by cmd/dbg).
+func C10Register() { c10Register() }
